@@ -171,6 +171,10 @@ def ensure_facts(root=None, jobs=16):
         d = os.path.join(CACHE, 'facts', key)
         meta_p = os.path.join(d, 'META.json')
         if os.path.exists(meta_p):
+            try:
+                os.utime(d, None)       # a set in use is a recent set (see the pruning below)
+            except OSError:
+                pass
             return d, json.load(open(meta_p))
         t0 = time.time()
         os.makedirs(d, exist_ok=True)
@@ -233,10 +237,14 @@ def ensure_facts(root=None, jobs=16):
             raise AnalysisBroken('units failed to parse: ' + '; '.join('%s: %s' % (f, o.strip().splitlines()[-1] if o.strip() else '?') for f, o in bad))
         meta = {'root': root, 'units': [f for f, _ in units], 'listed_sources': listed, 'extract_s': round(time.time() - t0, 2), 'key': key, 'units_parsed': len(jobs_l), 'units_from_cache': len(units) - len(jobs_l)}
         json.dump(meta, open(meta_p, 'w'))
-        # keep the cache small: drop all but the 6 most recent fact sets
+        # keep the cache small: drop all but the 24 most recent fact sets, and none that was used in the last ten minutes (the self-validation
+        # harnesses analyse many scratch trees at once; a set is read after the lock is released, so a set still in use must not be pruned:
+        # with 6 kept and 8 trees in flight a checker now and then lost its facts under its feet - exit 2, "internal error")
         sets = sorted(glob.glob(os.path.join(CACHE, 'facts', '*')), key=os.path.getmtime)
-        for old in sets[:-6]:
-            shutil.rmtree(old, ignore_errors=True)
+        now0 = time.time()
+        for old in sets[:-24]:
+            if now0 - os.path.getmtime(old) > 600:
+                shutil.rmtree(old, ignore_errors=True)
         # configured headers are kept per analysed root: the scratch copies of the self-validation runs leave one directory each
         now = time.time()
         for gd in glob.glob(os.path.join(CACHE, 'gen', '*')):
